@@ -64,6 +64,15 @@ def run(ctx):
         # so that a behaviour replayed alone is built exactly as it was in the batch
         for i, b in enumerate(behs):
             b[0]["trunc"] = (i % 2 == 1)
+        # some service behaviours run node 1 over a real tsdb.Store (alternating index types): what a pass deletes is
+        # deleted there, what the model keeps must stay readable and listed (several policies share series keys)
+        k = 0
+        every = pick(ctx, 4, 10)
+        for i, b in enumerate(behs):
+            if len(b) > 1 and len(b[0].get("local", [])) > 0 and len(b[0]["local"][0]) > 1:
+                if k % every == 0:
+                    b[0]["real"] = ["inmem", "tsi1"][(k // every) % 2]
+                k += 1
     inp = {"Unknown": 9}
 
     def run_h(behs, label):
@@ -78,9 +87,9 @@ def run(ctx):
     done = ctx.process(recs, out, rc, TEST, confirm)
     ctx.cov["traces_validated_against_impl"] += done.get("behaviours", 0)
     extra = {k: done.get(k, 0) for k in ("behaviours", "steps", "passes", "deleteshard_calls", "deleteshardgroup_calls", "prune_calls",
-                                         "predicate_rows", "boundary_rows", "write_probes", "scripted_errors")}
+                                         "predicate_rows", "boundary_rows", "write_probes", "scripted_errors", "real_store_behaviours")}
     if not ctx.replay and not done.get("mismatches") and min(extra["passes"], extra["deleteshard_calls"], extra["deleteshardgroup_calls"], extra["boundary_rows"],
-                              extra["scripted_errors"], extra["write_probes"]) == 0:
+                              extra["scripted_errors"], extra["write_probes"], extra["real_store_behaviours"]) == 0:
         raise Infra("vacuous replay: %s" % extra)
     return ctx.finish("model_checking", extra, assumptions=[
         "expiry boundary as the code and the property's anchor state it: EndTime + Duration < now (strict), on EndTime not TruncatedAt",
